@@ -89,6 +89,7 @@ def run(prop, jobs, design_ref, extra_assumptions=(), functions_note="", extra_r
         os.environ.setdefault("VERIF_REFUTER_POINTS", "32")
         enginea.NPOINTS = int(os.environ["VERIF_REFUTER_POINTS"])
     results = C.pool_map(enginea.run_variant_job, jobs)
+    results, n_retry = C.rerun_unknown(enginea.run_variant_job, jobs, results)
     if extra_results:
         results += extra_results
     can = canary_job(None)
@@ -109,6 +110,7 @@ def run(prop, jobs, design_ref, extra_assumptions=(), functions_note="", extra_r
         functions_under_contract=len(fns), functions_by_operation=dict(sorted(Counter(f"{a}.{b}" for a, b, c in fns).items())), contract_cases=cnt["cases"], vacuous_cases=cnt["vacuous_cases"],
         refuter_points=cnt["refuter_points"], engine_crosschecks_against_cpython=cnt["engine_crosschecks"],
         canary="refuted" if can["status"] == "refuted" else can["status"],
+        jobs_given_a_second_chance_with_4x_solver_budget=n_retry + sum(1 for r in (extra_results or []) if isinstance(r, dict) and r.get("second_chance")),
         checker_cmd=f"./check {prop} --tier {C.tier()}",
         trusted_base=["z3 5.1 (QF_NRA)", "cvc5 1.0.3 (second opinion on unknown)", "mpmath 60-digit evaluation (refuter / replay)",
                       "vv.symreal normal forms and tactics (radical squaring, congruence on opaque atoms, directional slicing)"],
